@@ -141,6 +141,7 @@ type Engine struct {
 	noPanicDepth int
 	budget       int64 // violation budget (vBudget), 0 = none
 	budgetBase   int64
+	measuring    bool // inside vMeasureAlloc
 	maxAlloc     int64
 	lastPanic    string
 }
@@ -521,6 +522,7 @@ func (e *Engine) resetPath(entry string, prefix []Dec) {
 	e.frozenHits = nil
 	e.noPanicDepth = 0
 	e.budget = 0
+	e.measuring = false
 	e.maxAlloc = 0
 	e.lastPanic = ""
 }
@@ -528,6 +530,13 @@ func (e *Engine) resetPath(entry string, prefix []Dec) {
 func describePanic(p interface{}) string {
 	switch p := p.(type) {
 	case targetPanic:
+		if i, ok := p.v.(iface); ok && i.t != nil {
+			switch i.v.(type) {
+			case *value, structure:
+				// an error / struct value: its type names it (no host addresses in messages)
+				return "panic: value of type " + i.t.String()
+			}
+		}
 		return "panic: " + toString(p.v)
 	case runtime.Error:
 		return "runtime error: " + p.Error()
@@ -584,14 +593,14 @@ func (e *Engine) RunPath(fn *ssa.Function, prefix []Dec) (res PathResult) {
 				case budgetExceeded:
 					status, why = "budget", fmt.Sprintf("instruction budget %d (vBudget) exceeded", e.budget)
 				case *runtime.TypeAssertionError:
-					buf := make([]byte, 4096)
+					buf := make([]byte, 1<<16)
 					n := runtime.Stack(buf, false)
 					status, why = "truncated", "unsupported (host type assertion): "+r.Error()+"\n"+string(buf[:n])
 				default:
 					if isTargetPanic(r) {
 						status, why = "panic", describePanic(r)
 					} else {
-						buf := make([]byte, 4096)
+						buf := make([]byte, 1<<16)
 						n := runtime.Stack(buf, false)
 						status, why = "error", fmt.Sprintf("%T: %v\n%s", r, r, buf[:n])
 					}
